@@ -232,6 +232,10 @@ pub struct World {
 	pub mgr_known_open: Vec<Vec<ChannelId>>,
 	/// deferred-mode nodes: messages handled since the manager was last written (what a crash now would forget)
 	pub unsaved: Vec<Vec<(usize, Wire)>>,
+	/// the user's event handler of this node fails (`Err(ReplayEvent)`) on terminal payment events (PaymentSent / PaymentFailed)
+	pub fail_terminal: Vec<bool>,
+	/// ... and has done so: the rest of the node's event queue waits behind the refused event
+	pub events_blocked: Vec<bool>,
 }
 
 /// Chain notification styles permitted by the `Listen` and `Confirm` contracts (C11).
@@ -325,6 +329,8 @@ impl World {
 			mgr_known_pending: vec![Vec::new(); n],
 			mgr_known_open: vec![Vec::new(); n],
 			unsaved: vec![Vec::new(); n],
+			fail_terminal: vec![false; n],
+			events_blocked: vec![false; n],
 		}
 	}
 
@@ -642,10 +648,21 @@ impl World {
 	/// Hands all pending events of node `n` to the scenario's policy.
 	pub fn take_events(&mut self, n: usize) -> Vec<Event> {
 		let evs = std::cell::RefCell::new(Vec::new());
+		let failing = self.fail_terminal[n];
+		let refused = std::cell::Cell::new(false);
 		self.nodes[n].cm.process_pending_events(&|e: Event| -> Result<(), ReplayEvent> {
+			if failing && matches!(e, Event::PaymentFailed { .. } | Event::PaymentSent { .. }) {
+				// the user's handler fails on this event: the library must keep it (and everything behind it)
+				refused.set(true);
+				return Err(ReplayEvent());
+			}
 			evs.borrow_mut().push(e);
 			Ok(())
 		});
+		if refused.get() {
+			self.events_blocked[n] = true;
+			crate::runner::witness("event-handler-refused-a-terminal-payment-event");
+		}
 		// the chain monitor's own events (SpendableOutputs, BumpTransaction)
 		self.nodes[n].mon_dirty.set(false);
 		let mon_evs = std::cell::RefCell::new(Vec::new());
@@ -964,7 +981,7 @@ impl World {
 		for _ in 0..4 {
 			let mut any = false;
 			for i in 0..self.nodes.len() {
-				if !skip.get(i).copied().unwrap_or(false) && !self.offline[i] && self.nodes[i].has_events() {
+				if !skip.get(i).copied().unwrap_or(false) && !self.offline[i] && !self.events_blocked[i] && self.nodes[i].has_events() {
 					self.handle_events(i);
 					any = true;
 				}
@@ -1438,6 +1455,7 @@ impl World {
 			self.obs.push(Obs::Persist { node: n, rec });
 		}
 		let _ = siglog_take();
+		self.events_blocked[n] = false;
 		let mut lost_earlier = std::mem::take(&mut self.unsaved[n]);
 		if let (Some((f, w)), Some((lf, lw))) = (lost_delivery.as_ref(), lost_earlier.last()) {
 			if f == lf && w.kind() == lw.kind() {
